@@ -509,10 +509,26 @@ impl<R: Read> BufRead for StreamBufferedReader<R> {
 
 impl<R: Read + Seek> Seek for StreamBufferedReader<R> {
     fn seek(&mut self, pos: SeekFrom) -> io::Result<u64> {
+        // The inner reader is ahead of the logical position by the bytes that
+        // are still buffered, so a relative seek has to be corrected by them.
+        let result = if let SeekFrom::Current(n) = pos {
+            let buffered = (self.end - self.pos) as i64;
+            if let Some(offset) = n.checked_sub(buffered) {
+                self.inner.seek(SeekFrom::Current(offset))?
+            } else {
+                // n - buffered underflows: seek in two steps
+                self.inner.seek(SeekFrom::Current(-buffered))?;
+                self.pos = 0;
+                self.end = 0;
+                self.inner.seek(SeekFrom::Current(n))?
+            }
+        } else {
+            self.inner.seek(pos)?
+        };
         // For seek operations, we need to invalidate the buffer
         self.pos = 0;
         self.end = 0;
-        self.inner.seek(pos)
+        Ok(result)
     }
 }
 
